@@ -217,7 +217,7 @@ def main():
     for a, b in pairs[: (3000 if TIER == "quick" else 60000)]:
         for rec in (True, False):
             b2 = {p: (v[0], (1 if (hash((p, v[0])) % 3 == 0 and p != ROOT) else 0), v[2]) for p, v in b.items()}
-            bat.case(hash((tuple(sorted(a.items())), tuple(sorted(b2.items())), rec)), nontrivial=(a != b2))
+            bat.case(hash((tuple(sorted(a.items())), tuple(sorted(b2.items())), rec)), nontrivial=(a != b2), desc={"before": {k: list(v) for k, v in a.items()}, "after": {k: list(v) for k, v in b2.items()}, "recursive": rec})
             pr = check_poll(a, b2, rec)
             if pr:
                 bat.fail("C10.poll-diff", pr[0], {"kind": "poll", "a": a, "b": b2, "recursive": rec, "problems": pr[:2]}, "PollingEmitter.queue_events")
